@@ -77,6 +77,10 @@ struct Dw {
     /// fresh observations since the last evaluation that found the member dead whose gap to the
     /// previous fresh observation is at most max_interval (what the sampling window can hold)
     usable: u64,
+    /// fresh arrivals since the last evaluation: (time, observations counted before it)
+    recent: Vec<(u64, u64)>,
+    /// smallest gap between consecutive fresh arrivals since the copy was created
+    min_gap: Option<u64>,
     prop: String,
     step: usize,
     stats: Stats,
@@ -115,6 +119,8 @@ impl Dw {
             last_fresh_ms: None,
             last_gap_ok: true,
             usable: 0,
+            recent: Vec::new(),
+            min_gap: None,
             prop: String::new(),
             step: 0,
             stats: Stats::default(),
@@ -165,7 +171,16 @@ impl Dw {
                 if known_after {
                     if !known_before {
                         self.obs = 0;
+                        self.min_gap = None;
+                        self.recent.clear();
                     }
+                    if let Some(t) = self.last_fresh_ms {
+                        if self.obs >= 1 {
+                            let gap = self.now - t;
+                            self.min_gap = Some(self.min_gap.map_or(gap, |g| g.min(gap)));
+                        }
+                    }
+                    self.recent.push((self.now, self.obs));
                     if let Some(t) = self.last_fresh_ms {
                         // the first sighting counts as an observed value (the statement asks for two strictly
                         // increasing values, not for two reports to the detector)
@@ -231,6 +246,35 @@ impl Dw {
                 if live {
                     self.stats.inc("live_verdicts");
                 }
+                // accuracy for a member that resumes: two fresh heartbeats since the previous
+                // evaluation (neither of them the first sighting), at most max_interval apart, put
+                // an interval into the window whatever that evaluation decided. Every sample and the
+                // prior are at least min(smallest gap ever, initial interval), so is the smoothed
+                // mean, and the member has to be live while the silence since the second one is
+                // within phi_threshold times that (the steady clause with a = that minimum).
+                if self.prop == "C11" {
+                    if let [.., (t1, obs1), (t2, _)] = self.recent[..] {
+                        let floor = self.min_gap.unwrap_or(0).min(self.cfg.initial_interval_ms) as f64;
+                        if obs1 >= 1 && t2 - t1 <= self.cfg.max_interval_ms && floor > 0.0 && ((self.now - t2) as f64) <= self.cfg.phi * floor * (1.0 - 1e-6) {
+                            self.stats.inc("resumed_evaluations");
+                            if !(known && live) {
+                                return Err(mk(
+                                    "C11",
+                                    "C11.resumed_not_live",
+                                    format!(
+                                        "two fresh heartbeats at {t1} and {t2} ms since the previous evaluation, evaluation at {} ms, phi {}, smallest interval ever {} ms, initial {} ms: member {}",
+                                        self.now,
+                                        self.cfg.phi,
+                                        self.min_gap.unwrap_or(0),
+                                        self.cfg.initial_interval_ms,
+                                        if known { "not live" } else { "not even known" }
+                                    ),
+                                ));
+                            }
+                        }
+                    }
+                }
+                self.recent.clear();
                 if known && live && self.usable == 0 && (self.prop == "C10" || self.prop == "C11") {
                     let prop = self.prop.clone();
                     return Err(mk(&prop, &format!("{prop}.live_without_usable_interval"), format!("member live at t={} although no inter-arrival interval within max_interval was observed since it was last found dead ({} observations overall)", self.now, self.obs)));
@@ -281,6 +325,7 @@ impl Dw {
                     self.usable = 0;
                     self.last_gap_ok = true;
                     self.last_fresh_ms = None;
+                    self.min_gap = None;
                     self.stats.inc("probe_member_removed");
                 }
                 Ok(())
